@@ -1,6 +1,7 @@
 import XeofsProofs.Bridge
 import XeofsProofs.Lemmas.Misc13
 import XeofsProofs.Props.C11
+import XeofsProofs.Lemmas.PopModel
 /-!
 # C18 — POP modes are eigen-pairs of the lag-1 feedback matrix
 
@@ -49,5 +50,27 @@ theorem src_ordered_by_descending_std : Gen.popOrderedByDescendingStd = true ∧
 
 theorem sorted_descending (sd : List ℝ) :
     (sd.mergeSort (fun a b => decide (b ≤ a))).Pairwise (fun a b => b ≤ a) := (C11.rot_sorted sd).1
+
+/-! ### on the executable model (`XM.popFeedback`, `XM.popFit` — run by the driver at complex doubles next to `POP.fit`) -/
+
+/-- the model's feedback matrix solves the normal equations of the lag-1 regression: `A (X0ᴴX0) = X1ᴴX0` -/
+theorem model_feedback_normal_equations {n p : ℕ} (X : XM.Mat n p 𝕜) (Cinv : XM.Mat p p 𝕜)
+    (hC : Cinv.toMatrix * (XM.lagZeroGram X).toMatrix = 1) :
+    (XM.popFeedback X Cinv).toMatrix * (XM.lagZeroGram X).toMatrix = (XM.lagOneGram X).toMatrix :=
+  XP.PopM.feedback_normal_equations X Cinv hC
+
+/-- every eigen-pair of the model's feedback matrix is an eigen-pair of "lag-1 covariance times inverse lag-0 covariance" -/
+theorem model_eigenpair_is_pop {n p : ℕ} (X : XM.Mat n p 𝕜) (Cinv : XM.Mat p p 𝕜) (v : Fin p → 𝕜) (lam : 𝕜)
+    (h : (XM.popFeedback X Cinv).toMatrix.mulVec v = lam • v) :
+    ((XM.lagOneGram X).toMatrix * Cinv.toMatrix).mulVec v = lam • v :=
+  XP.PopM.eigenpair_is_pop X Cinv v lam h
+
+/-- damping times and periods of the model are `-1/log|λ|` and `2π/arg λ` of the mode they are reported for (after sorting) -/
+theorem model_damping_and_period {n p k : ℕ} (X : XM.Mat n p 𝕜) (lam : Fin k → 𝕜) (argLam : Fin k → ℝ) (twoPi : ℝ) (P : XM.Mat p k 𝕜)
+    (Minv : Fin k → ℝ × ℝ × ℝ × ℝ) (perm : Fin k → Fin k) (j : Fin k) :
+    (XM.popFit X lam argLam twoPi P Minv perm).damping j = -1 / Real.log ‖lam (perm j)‖ ∧
+    (XM.popFit X lam argLam twoPi P Minv perm).periods j = twoPi / argLam (perm j) ∧
+    (XM.popFit X lam argLam twoPi P Minv perm).eigenvalues j = lam (perm j) :=
+  ⟨XP.PopM.damping_eq X lam argLam twoPi P Minv perm j, XP.PopM.period_eq X lam argLam twoPi P Minv perm j, rfl⟩
 
 end C18
